@@ -1,4 +1,5 @@
 from __future__ import print_function
+import re
 import string
 import logging
 from bisect import bisect
@@ -307,6 +308,18 @@ class SourceScope(Scope):
 
         return start
 
+    def find_def_loc(self, name, start):
+        # type: (str, loc_t) -> loc_t
+        # the identifier that follows the def / class keyword of a statement
+        sl, pos = start
+        source = '\n'.join(self.source.lines[sl-1:sl+50])
+        m = re.compile(r'\b(?:def|class)\b(?:\s|\\\n)*(%s)\b' % re.escape(name)).search(source, pos)
+        if not m:
+            return start
+        pos = m.start(1)
+        return (sl + source.count('\n', 0, pos),
+                pos - source.rfind('\n', 0, pos) - 1)
+
     def add_attr_assign(self, scope, attr, value):
         # type: (Scope, Attribute, AST) -> None
         self._attr_assigns.append((scope, attr, value))
@@ -386,7 +399,7 @@ class FuncScope(Scope, Location, Resolvable):
         else:
             fnode = node  # type: FunctionDef  # type: ignore[assignment]
             self.name = fnode.name
-            self.declared_at = top.find_id_loc(' ' + fnode.name, np(fnode), 1, False)
+            self.declared_at = top.find_def_loc(fnode.name, np(fnode))
             self.location = get_first_body_node_loc(fnode.body) or (np(fnode.body[0])[0], np(fnode)[1] + 4)
             self.decorator_list = fnode.decorator_list
 
@@ -455,7 +468,7 @@ class ClassScope(Scope, Location, Resolvable):
         # type: (Scope, ClassDef, SourceScope) -> None
         Scope.__init__(self, parent, top)
         self.name = node.name
-        self.declared_at = top.find_id_loc(' ' + node.name, np(node), 1, False)
+        self.declared_at = top.find_def_loc(node.name, np(node))
         self.location = np(node.body[0])
         self.flow = self.top.add_flow(Flow('class', self))
         self._bases = node.bases
